@@ -73,17 +73,17 @@ def run(R):
     R.encode(f'{H.ETYPE_SCALA} EType.fromPythonTypeEncoding (case table, parsed)', json.dumps(tab, sort_keys=True, default=str))
     R.sample({'etype_table': {k: str(v) for k, v in tab.items()}})
     validate_stub(R)
-    pct = 120 if R.tier == 'quick' else 400
+    pct = 240 if R.tier == 'quick' else 400
     R.bounds = {'types': f'{len(cat)} types, depth <= 2', 'collections': 'length 0..2; one array type with 7..9 elements',
                 'ints': '32/64-bit ranges, symbolic', 'floats': 'symbolic 32/64-bit patterns (opaque)', 'strings': 'choice among 3 (ASCII, empty, multi-byte UTF-8)',
-                'calls': 'symbolic choice among 10 fixed calls', 'structs': 'value field order is a symbolic permutation of the type field order', 'ndarray': 'concrete numpy arrays chosen symbolically (C/F order, views, <= 3 dims)',
+                'calls': 'symbolic choice among 22 fixed calls: every ploidy/phase, and diploid pairs on both sides of the decoder small-table / sqrt boundary (0/8, 0/9, 7/8, 1/8, 8/8, 7/7, 0/20000, 16383/32767, phased 0|8, 3|9, 8|0, 0|300)', 'structs': 'value field order is a symbolic permutation of the type field order', 'ndarray': 'concrete numpy arrays chosen symbolically (C/F order, views, <= 3 dims)',
                 'per_condition_timeout_s': pct}
     R.assume('struct.pack/unpack replaced in byte_reader by pure-Python little-endian arithmetic (contract validated against the real struct each run)',
              'floats are opaque IEEE bit patterns (struct float packing assumed injective on patterns); floats inside numpy arrays go through the real struct',
              'the layout reference (harness/C33_enc.py ref_encode) is hand-written from E*.scala; only the type->EType/required table is parsed from EType.scala; the engine is not run',
              'np.prod in hail.expr.types returns a Python int (CrossHair\'s range() rejects numpy integers)',
              'top-level values are non-missing (hl.literal handles top-level missing before encoding); dict keys non-missing',
-             'call decode uses math.sqrt (C): alleles are chosen values, not symbolic (bit packing itself is C34)',
+             'call decode uses math.sqrt (C): alleles are chosen values, not symbolic; the list reaches allele_pair_sqrt from both sides of the small table, triangular indices and the largest encodable pair (the float kernel itself is C34)',
              'HailType.__hash__ (43 + hash(str(self))) is replaced by a deterministic checksum of the same string: CrossHair makes hash(str) symbolic',
              'CrossHair 0.0.110 path exploration is exhaustive when it reports "Confirmed over all paths"')
     R.extra['trusted_base'] = ['CrossHair/z3', 'harness/C33_enc.py reference layout and struct stub', 'harness/C32_json.py value builder and eq()']
